@@ -92,6 +92,12 @@ func ruleGap(c *Ctx) {
 				sinks = append(sinks, gapSink{p.posStr(at), okk, fmt.Sprintf("%s with first coefficient scaled by 10^%d and second by 10^%d (needs difference %+d)", what, d.off, o.off, gap)})
 			}
 			in.intrinsics["uint128.cmp"] = func(in *interp, st *state, call *ast.CallExpr, recv AV, args []AV) ([]AV, bool) {
+				// the orientation of the comparison is remembered: cmp:c0-c1 is sign(first - second)
+				if a, ok1 := asScaled(recv); ok1 && len(args) == 1 {
+					if b, ok2 := asScaled(args[0]); ok2 && a.base != b.base {
+						return []AV{avOpaque{"cmp:" + a.base + "-" + b.base}}, true
+					}
+				}
 				return []AV{top}, true // early heuristics; final comparisons are caught at the assignment below
 			}
 			in.evalLeaf = func(in *interp, st *state, e ast.Expr) (AV, bool) {
@@ -162,6 +168,18 @@ func ruleGap(c *Ctx) {
 			}
 			// op-assign forms on scaled scalars: x /= 10^k
 			in.binopHook = func(op token.Token, l, r AV, at ast.Node) (AV, bool) {
+				// sres * -1 reverses the orientation of a remembered comparison
+				if op == token.MUL {
+					for _, pair := range [][2]AV{{l, r}, {r, l}} {
+						if o, ok := pair[0].(avOpaque); ok && strings.HasPrefix(o.name, "cmp:") {
+							if k, ok := pair[1].(avInt); ok && k.v == -1 {
+								parts := strings.Split(strings.TrimPrefix(o.name, "cmp:"), "-")
+								return avOpaque{"cmp:" + parts[1] + "-" + parts[0]}, true
+							}
+							return top, true
+						}
+					}
+				}
 				ls, lsc := asScaled(l)
 				if !lsc {
 					return nil, false
@@ -195,10 +213,22 @@ func ruleGap(c *Ctx) {
 				classes = append(classes, []cls{{"fin", true}, {"fin", true}})
 			}
 			overflow := false
+			orientBad := ""
 			for _, cs := range classes {
-				in.runFunc(fd, operand(0, cs[0]), []AV{operand(1, cs[1])})
+				outs := in.runFunc(fd, operand(0, cs[0]), []AV{operand(1, cs[1])})
 				if in.overflow {
 					overflow = true
+				}
+				// a result that is a remembered coefficient comparison must be oriented first-minus-second
+				// (reversed when both operands are negative: the larger magnitude is the smaller value)
+				want := "cmp:c0-c1"
+				if cs[0].neg && cs[1].neg && fn == "Decimal.Cmp" {
+					want = "cmp:c1-c0"
+				}
+				for _, o := range outs {
+					if t, ok := o.(avOpaque); ok && strings.HasPrefix(t.name, "cmp:") && t.name != want {
+						orientBad = fmt.Sprintf("for operands of sign (%v,%v) the result is the coefficient comparison %s, but the value comparison needs %s (the operands were swapped during alignment, or are both negative)", cs[0].neg, cs[1].neg, strings.TrimPrefix(t.name, "cmp:"), strings.TrimPrefix(want, "cmp:"))
+					}
 				}
 			}
 			if overflow {
@@ -225,7 +255,9 @@ func ruleGap(c *Ctx) {
 				}
 			}
 			sort.Strings(bad)
-			if len(bad) > 0 {
+			if orientBad != "" {
+				c.bad(key, fd, fmt.Sprintf("%s, exponent gap %+d: %s", fn, g, orientBad))
+			} else if len(bad) > 0 {
 				c.bad(key, fd, fmt.Sprintf("%s, exponent gap %+d: the coefficients are compared at different scales: %s", fn, g, strings.Join(bad, " | ")))
 			} else {
 				abs := g
